@@ -79,7 +79,7 @@ def seg_runs(prop, tier, specs):
     for action, n, shape, extra in specs:
         cfg = dict(N=n, action=action, shape=shape, props=[prop])
         cfg.update(extra)
-        tagx = ",".join(f"{k}={v}" for k, v in extra.items())
+        tagx = ",".join(k + "=" + ("scenario" if isinstance(v, dict) else str(v)) for k, v in extra.items())
         runs.append(Run(name=f"seg:{action}:N={n}:{'x'.join(map(str, shape))}" + (":" + tagx if tagx else ""),
                         harness=segstep.harness, cfg=cfg, replay=seg_replay.replay,
                         need_tags=("accepted",) + (("witness:division",) if n >= 3 and prop != "C11" else ())
